@@ -1,7 +1,8 @@
 """C06 — all power flow algorithms and back-ends agree on the solution.
 
 proof:   Props/C06.lean: on every rooted tree the fixed points of the backward/forward sweep are exactly the solutions of the
-         nodal equations (Kirchhoff + Ohm); generated facts: every documented algorithm is dispatched, the fast single-slack
+         nodal equations (Kirchhoff + Ohm); the Gauss-Seidel update generated from gausspf and every 'solve with the mismatch'
+         step (Newton, Iwamoto, fast-decoupled) is zero iff the power balance holds; generated facts: every documented algorithm is dispatched, the fast single-slack
          result routine is only selected under its preconditions, the sweep solver maps buses to columns by position.
 tie:     translator; hypothesis check: the model's sweep equations evaluated on the implementation's converged bfsw voltages of
          radial nets (branch currents by Ohm's law satisfy the backward equation).
